@@ -72,6 +72,10 @@ def programs(tier):
         "stmts": {"@factory": "def make(k):\n    def scale(x, k=k):\n        return x * k\n    return scale", "@double": "double = make(2)",
                   "@triple": "triple = make(3)", "@quad": "quad = make(4)"},
         "order": ["@factory", "@double", "@triple", "@quad", "R"]}))
+    # a global that is a None placeholder when its reader is defined and is assigned by a later module-level statement
+    progs.append(("none-placeholder", {
+        "funcs": [mkfunc("R", calls=[call("D")], reads=["LIMIT", "MODE"], rich=False), mkfunc("D", kind="plain", reads=["MODE"], rich=False)],
+        "vars": {"LIMIT": None, "MODE": None}, "stmts": {"@set_limit": "LIMIT = 10", "@set_mode": "MODE = 'fast'"}}))
     # a memento function and a plain function of ANOTHER package, both referenced from the root (and through a helper)
     progs.append(("cross-package-siblings", {
         "funcs": [mkfunc("R", calls=[call("G", "xpkg"), call("K", "xpkg"), call("P")], rich=False),
